@@ -201,8 +201,22 @@ def rule_count(ctx):
     tables.check_kc_table(ctx, "board::piece_bitboards::PieceBitboards::add_piece", "add_piece")
     tables.check_kc_table(ctx, "board::piece_bitboards::PieceBitboards::remove_piece", "remove_piece")
     bb = ctx.body(BB_COUNT)
-    pops = [t for bi, t in bb.calls() if callee_is(t, "board::bitboard::Bitboard::count_ones")]
-    ctx.check(len(pops) == 12 and len(list(bb.calls())) == 12, "get_piece_count:popcount-only", "each arm is count_ones of one bitboard", bb.where(0), bad_what="get_piece_count arms are not 12 plain count_ones calls")
+    # per (kind, colour): the result is count_ones of a bitboard and nothing else is computed
+    from . import cases
+    kparam = [bb.local_name(l) for l in range(1, bb.arg_count + 1) if bb.locals[l]["ty"] == "board::piece::Kind"]
+    bad = []
+    for k in tables.KINDS:
+        for c in tables.COLOURS:
+            run = cases.run(ix, bb, {kparam[0]: cases.enum_val(ix, "board::piece::Kind", k, [cases.enum_val(ix, "board::piece::Color", c)])}) if kparam else None
+            rets = [p for p in run.paths if p.end == "return"] if run else []
+            ok = run is not None and not run.overflow and len(rets) == 1
+            if ok:
+                r = mir.strip_copies(rets[0].ret)
+                calls = [e[2] for e in rets[0].events if e[0] == "call"]
+                ok = r[0] == "call" and r[1] == "board::bitboard::Bitboard::count_ones" and calls == ["board::bitboard::Bitboard::count_ones"]
+            if not ok:
+                bad.append((k, c))
+    ctx.check(not bad, "get_piece_count:popcount-only", "for each of the 12 pieces the result is count_ones of one bitboard and nothing else", bb.where(0), bad_what="get_piece_count is not a plain count_ones for %s" % bad[:4])
 
 
 RULES = [("tables", rule_tables), ("sides", rule_sides), ("only", rule_only), ("count", rule_count)]
